@@ -1193,6 +1193,18 @@ def gen_match_rule(rng, prog, carets=False, no_pre=False):
     return r
 
 
+def has_precontext_only_rule(prog):
+    """Does some rule have all its input items before its first modified item (the modified items are insertions only)?
+    Such a font is refused by libgraphite2 - a recorded known finding of C03 (witness `_ > c4:1 / c1 _;`)."""
+    for _kind, passes in prog.tables:
+        for rules in passes:
+            for r in rules:
+                mods = [i for i, it in enumerate(r.items) if it.mod]
+                if mods and all(it.cls is None for it in r.items[mods[0]:]) and any(it.cls is not None for it in r.items[:mods[0]]):
+                    return True
+    return False
+
+
 def gen_big_fsm_program(rng, nrules, length):
     """One substitution pass with `nrules` different rules of `length` items each over two two-glyph classes, plus a rule
     with a class that splits both (so that every item covers two machine columns with identical successors): the state
